@@ -59,8 +59,8 @@ theorem C05_skipped_block_frame (ρ : List Val) (p : Prog) (B B' : BState) (top 
 `buildX` / `runX` (C05/ModelX.lean, sequential semantics on integers) and tied to the code by the correspondence check. The two
 theorems below cover the part of `BaseBitVector::assign` that is specific to them.
 /- not proved (correspondence only): the program-level statement
-theorem C05_sequential_integers (hb : buildX p (initX ins) = some X) (hr : runX p ρ [] none = some (env, ienv)) :
-    outputs ρ X.core = env ∧ (outputsI ρ X).map (fun kv => ival kv.1 kv.2) = ienv.map (fun kv => ival kv.1 kv.2) -/
+theorem C05_sequential_extended (hb : buildX p (initX ins) = some X) (hr : runX p ⟨ρ, [], []⟩ true none = some s) :
+    outputs ρ X.core = s.env ∧ (outputsI ρ X).map (fun kv => ival kv.1 kv.2) = s.ienv.map (fun kv => ival kv.1 kv.2) ∧ outputsObs ρ X = s.obs -/
 -/
 
 /-- Padding a value at the MSB side with the variable's own expansion policy (zero / sign / one) - what the frontend does to the OLD
@@ -91,8 +91,34 @@ theorem C05_int_conditional_assign (ρ : List Val) (X X' : XState) (x inn wi : N
 def intSample : Prog :=
   .istmt (.declLit .s (-3)) (.ifS (.read 0 []) (.istmt (.assignLit 0 100) .done) .done)
 example : (buildX intSample (initX [.bit])).isSome = true ∧
-    (runX intSample [[false]] [] none).map (fun r => r.2.map fun kv => ival kv.1 kv.2) = some [-3] := by decide
+    (runX intSample ⟨[[false]], [], []⟩ true none).map (fun r => r.ienv.map fun kv => ival kv.1 kv.2) = some [-3] := by decide
 example : ival .s (padTo IKind.s.pol 8 [true, false, true]) = -3 := by decide
+
+/-! ### enable scopes (`ENIF`, and the `EnableScope` every conditional scope carries): registers and memory writes
+
+`reg()` and `mem[a] = d` take `EnableScope::get()->getFullEnableCondition()` as (write) enable. The model keeps the enable-scope stack
+(`XState.ens`, `pushEn` = `EnableScope::setEnable`); sequential semantics: the update happens iff every enclosing condition holds. -/
+
+/-- For any nesting depth `n ≥ 1` and any conditions: after constructing `n` enable scopes one inside the other (conditions `cs`,
+outermost first; nodes may be created in between), the accumulated enable of the innermost scope - the enable of a register or memory
+write port created there - evaluates to the conjunction of all `n` conditions. Induction over the scope stack (`pushEn_inv`). -/
+theorem C05_enable_is_conjunction (ρ : List Val) (ns : Nodes) (cs : List Nat) (hv : ∀ c ∈ cs, c < ns.size) (hne : cs ≠ []) :
+    ∃ e rest, (pushAll ns [] cs).2 = e :: rest ∧
+      truthy (valAt ρ (pushAll ns [] cs).1 e.full) = cs.all (fun c => truthy (valAt ρ ns c)) :=
+  enable_is_conjunction ns cs hv hne
+
+/-- The induction step, usable in any reachable state: if every entry of the stack evaluates to the conjunction of the conditions
+from itself downwards (`EnInv`), it still does after one more `EnableScope` is constructed, and existing nodes keep their values. -/
+theorem C05_enable_push_step (ρ : List Val) (ns : Nodes) (ens : List EnS) (cond : Nat) (h : EnInv ρ ns ens) (hc : cond < ns.size) :
+    Ext ns (pushEn ns ens cond).1 ∧ EnInv ρ (pushEn ns ens cond).1 (pushEn ns ens cond).2 :=
+  pushEn_inv ns ens cond h hc
+
+-- non-vacuity: ENIF (a) ENIF (b) IF (c) { reg(d) } - accepted, runs, and the update flag is a ∧ b ∧ c
+def enSample : Prog :=
+  .enif (.read 0 []) (.enif (.read 1 []) (.ifS (.read 2 []) (.istmt (.reg (.read 3 [])) .done) .done) .done) .done
+example : (buildX enSample (initX [.bit, .bit, .bit, .uint 2])).isSome = true ∧
+    (runX enSample ⟨[[true], [true], [true], [true, false]], [], []⟩ true none).map (·.obs) = some [true] ∧
+    (runX enSample ⟨[[false], [true], [true], [true, false]], [], []⟩ true none).map (·.obs) = some [false] := by decide
 
 /-! ### the former witness: `Bit x = '0'; IF (a) x = '1'; ELSE IF (a) x = '0'; ELSE x = '1';` -/
 
